@@ -146,7 +146,10 @@ def tg_post(I, outcome, ctx):
             I.oblige('no_bound_only_when_due_but_unregistering', z3.And(due, pend0))
 
 
-TIMER_HOOKS = dict(getattr_hooks={'expiry': expiry_get, 'unregister_pending': pending_get}, setattr_hooks={'expiry': expiry_set})
+TIMER_HOOKS = dict(getattr_hooks={'expiry': expiry_get, 'unregister_pending': pending_get,
+                                  # generate_events.time_left (a property over _time_left): readable by a timer visit
+                                  'time_left': lambda I, o: VReal(I.fz(o, '_time_left')) if o.cls == 'generate_events' else None},
+                   setattr_hooks={'expiry': expiry_set})
 
 SPECS.append(FucSpec(
     'C09', 'circuits/core/timers.py', 'Timer._on_generate_events', tg_setup, tg_post, fields=T_FIELDS, field_alias=T_ALIAS,
